@@ -58,6 +58,8 @@ def index_labels(n, kind):
         return [3 * i + 2 for i in range(n)]
     if kind == "reversed":
         return list(range(n - 1, -1, -1))
+    if kind == "repeated":   # per-tomogram tables glued with pd.concat without ignore_index: labels restart
+        return [i % 2 for i in range(n)]
     raise ValueError(kind)
 
 
